@@ -136,6 +136,10 @@ fn worker(i: usize, s: &'static Shared) {
 
 pub struct Program {
     pub pages: usize,
+    /// bytes per page; range operations take byte addresses
+    pub page_size: usize,
+    /// byte size of the bitmap (the last page may be partial)
+    pub byte_size: usize,
     pub premarked: Vec<usize>,
     pub threads: Vec<Vec<Op>>,
 }
@@ -152,7 +156,7 @@ pub struct Execution {
 pub fn execute(prog: &Program, mut choose: impl FnMut(usize, usize) -> usize) -> Execution {
     let s = shared();
     let n = prog.threads.len();
-    let bm = Arc::new(AtomicBitmap::new(prog.pages, NonZeroUsize::new(1).unwrap()));
+    let bm = Arc::new(AtomicBitmap::new(prog.byte_size, NonZeroUsize::new(prog.page_size).unwrap()));
     for p in &prog.premarked {
         bm.set_bit(*p);
     }
@@ -198,10 +202,10 @@ pub fn execute(prog: &Program, mut choose: impl FnMut(usize, usize) -> usize) ->
     Execution { results, final_set, decisions, switches }
 }
 
-fn pages_of(op: &Op, pages: usize) -> (Vec<usize>, Vec<usize>) {
+fn pages_of(op: &Op, pages: usize, ps: usize) -> (Vec<usize>, Vec<usize>) {
     // (marked, reset) page sets of one operation
     let range = |a: usize, l: usize| -> Vec<usize> {
-        if l == 0 { vec![] } else { (a..a.saturating_add(l)).filter(|p| *p < pages).collect() }
+        if l == 0 { vec![] } else { (a / ps..=a.saturating_add(l - 1) / ps).take_while(|p| *p < pages).collect() }
     };
     match op {
         Op::SetRange(a, l) => (range(*a, *l), vec![]),
@@ -220,7 +224,7 @@ pub fn judge(prog: &Program, ex: &Execution) -> Result<(), String> {
     }
     for th in &prog.threads {
         for op in th {
-            let (m, r) = pages_of(op, prog.pages);
+            let (m, r) = pages_of(op, prog.pages, prog.page_size);
             for p in m {
                 marked[p] = true;
             }
@@ -230,7 +234,7 @@ pub fn judge(prog: &Program, ex: &Execution) -> Result<(), String> {
         }
     }
     let mut seen: Vec<bool> = vec![false; prog.pages + 70];
-    let describe = || format!("program {:?} premarked {:?} schedule {:?}", prog.threads, prog.premarked, ex.decisions.iter().map(|d| d.1).collect::<Vec<_>>());
+    let describe = || format!("page size {} program {:?} premarked {:?} schedule {:?}", prog.page_size, prog.threads, prog.premarked, ex.decisions.iter().map(|d| d.1).collect::<Vec<_>>());
     for (ti, r) in ex.results.iter().enumerate() {
         for h in &r.harvested {
             ensure!(h.len() == prog.pages.div_ceil(64), "get_and_reset returned {} words for {} pages", h.len(), prog.pages);
@@ -263,15 +267,31 @@ pub fn judge(prog: &Program, ex: &Execution) -> Result<(), String> {
     Ok(())
 }
 
-fn gen_op(t: &mut Tape, pages: usize, focus: usize) -> Op {
+fn gen_op(t: &mut Tape, pages: usize, focus: usize, ps: usize, byte_size: usize) -> Op {
     // pages around `focus` so that operations share a word or span two
     let near = |t: &mut Tape| (focus + t.idx(6)).min(pages + 1);
+    // a byte address inside a page near the focus / a byte length of a few pages
+    let addr = |t: &mut Tape, page: usize| page * ps + t.idx(ps);
     match t.below(10) {
         0 | 1 => Op::SetBit(near(t)),
-        2 => Op::SetRange(near(t), 1 + t.idx(4)),
-        3 => Op::SetRange(near(t).saturating_sub(t.idx(4)), 1 + t.idx(9)),
+        2 => {
+            let p = near(t);
+            Op::SetRange(addr(t, p), 1 + t.idx(4 * ps))
+        }
+        3 => {
+            let p = near(t).saturating_sub(t.idx(4));
+            Op::SetRange(addr(t, p), 1 + t.idx(9 * ps))
+        }
         4 => Op::ResetBit(near(t)),
-        5 => Op::ResetRange(near(t), 1 + t.idx(3)),
+        5 => {
+            let p = near(t);
+            if t.chance(1, 4) {
+                // a reset that runs to (or past) the end of the bitmap from the middle
+                Op::ResetRange(addr(t, p), byte_size + t.idx(3))
+            } else {
+                Op::ResetRange(addr(t, p), 1 + t.idx(3 * ps))
+            }
+        }
         6 | 7 => Op::Harvest,
         8 => Op::Clone,
         _ => Op::IsSet(near(t)),
@@ -282,17 +302,19 @@ fn gen_program(t: &mut Tape) -> Program {
     let pages = 70 + t.idx(71);
     let focus = t.pick(&[0usize, 60, 62, 63, 64, 66]);
     let nthreads = 2 + t.idx(2);
+    let page_size = t.pick(&[1usize, 1, 1, 3, 48, 1000, 4096]);
+    let byte_size = pages * page_size - t.idx(page_size);
     let mut threads = Vec::new();
     for _ in 0..nthreads {
         let n = 1 + t.idx(4);
-        threads.push((0..n).map(|_| gen_op(t, pages, focus)).collect());
+        threads.push((0..n).map(|_| gen_op(t, pages, focus, page_size, byte_size)).collect());
     }
     // pre-marked pages: near the focus, and anywhere (e.g. the same bit position in another word)
     let mut premarked = if t.flag() { vec![focus + t.idx(4)] } else { vec![] };
     for _ in 0..t.idx(3) {
         premarked.push(t.idx(pages));
     }
-    Program { pages, premarked, threads }
+    Program { pages, page_size, byte_size, premarked, threads }
 }
 
 fn shape_labels(prog: &Program, ex: &Execution, cx: &mut Cx) {
@@ -318,7 +340,7 @@ fn run_random(t: &mut Tape, cx: &mut Cx) -> Result<(), String> {
     let prog = gen_program(t);
     // the schedule comes from the tape as well
     let ex = execute(&prog, |_, k| t.idx(k));
-    note!(cx, "pages {} premarked {:?} threads {:?} schedule {:?}", prog.pages, prog.premarked, prog.threads, ex.decisions.iter().map(|d| d.1).collect::<Vec<_>>());
+    note!(cx, "pages {} page size {} premarked {:?} threads {:?} schedule {:?}", prog.pages, prog.page_size, prog.premarked, prog.threads, ex.decisions.iter().map(|d| d.1).collect::<Vec<_>>());
     shape_labels(&prog, &ex, cx);
     judge(&prog, &ex)
 }
@@ -326,7 +348,7 @@ fn run_random(t: &mut Tape, cx: &mut Cx) -> Result<(), String> {
 /// Small scopes: a fixed family of programs, every interleaving enumerated depth-first.
 fn scope_programs() -> Vec<Program> {
     let mut v = Vec::new();
-    let mk = |premarked: Vec<usize>, threads: Vec<Vec<Op>>| Program { pages: 130, premarked, threads };
+    let mk = |premarked: Vec<usize>, threads: Vec<Vec<Op>>| Program { pages: 130, page_size: 1, byte_size: 130, premarked, threads };
     for base in [0usize, 62] {
         let (a, b, c) = (base, base + 1, base + 2);
         // two markers in one word
@@ -359,7 +381,7 @@ fn scope_programs() -> Vec<Program> {
 
 fn scope_programs_deep() -> Vec<Program> {
     let mut v = scope_programs();
-    let mk = |premarked: Vec<usize>, threads: Vec<Vec<Op>>| Program { pages: 130, premarked, threads };
+    let mk = |premarked: Vec<usize>, threads: Vec<Vec<Op>>| Program { pages: 130, page_size: 1, byte_size: 130, premarked, threads };
     for base in [0usize, 62] {
         let (a, b, c, d) = (base, base + 1, base + 2, base + 3);
         v.push(mk(vec![d], vec![vec![Op::SetRange(a, 3), Op::Harvest], vec![Op::SetRange(b, 3), Op::Harvest]]));
@@ -421,7 +443,7 @@ fn gen_scopes(tier: Tier) -> Box<dyn Iterator<Item = Vec<u64>>> {
 pub fn property() -> Property {
     Property {
         id: "C08",
-        rule: "a case = a concurrent program (2..3 threads x 1..4 operations from set_addr_range, set_bit, reset_addr_range, reset_bit, get_and_reset, clone, is_bit_set on pages that share a 64-bit word or span two, optionally a pre-marked page) + a schedule: at every atomic operation of the bitmap (hook H2) the tape chooses which thread advances; small scopes (30 hand-picked program shapes, more and deeper in the thorough tier) have ALL their interleavings enumerated depth-first (counter 'schedules'); oracle = history invariant: harvested U final U clones are subsets of the marked pages, no page index >= page count, and every marked page that no thread reset is harvested or still set; non-trivial = a schedule that actually interleaves the threads (more context switches than threads), every enumerated scope; distinct = decoded (program, schedule)",
+        rule: "a case = a concurrent program (2..3 threads x 1..4 operations from set_addr_range, set_bit, reset_addr_range, reset_bit, get_and_reset, clone, is_bit_set on pages that share a 64-bit word or span two, page sizes {1, 3, 48, 1000, 4096} with byte-addressed ranges and a possibly partial last page, resets that run from the middle to the end, optionally pre-marked pages) + a schedule: at every atomic operation of the bitmap (hook H2) the tape chooses which thread advances; small scopes (30 hand-picked program shapes, more and deeper in the thorough tier) have ALL their interleavings enumerated depth-first (counter 'schedules'); oracle = history invariant: harvested U final U clones are subsets of the marked pages, no page index >= page count, and every marked page that no thread reset is harvested or still set; non-trivial = a schedule that actually interleaves the threads (more context switches than threads), every enumerated scope; distinct = decoded (program, schedule)",
         assumptions: &["only sequentially consistent interleavings at the granularity of the instrumented atomic operations are produced; weak-memory reorderings are out of reach", "how often a page is reported is not asserted (over-reporting is allowed by the statement)", "reset() (plain store, documented as non-harvesting) is not part of the generated programs"],
         subchecks: vec![
             SubCheck { name: "scopes", builds: &[Build::Std], kind: Kind::Exhaustive { gen: gen_scopes }, run: run_scope },
